@@ -105,9 +105,24 @@ def reused_header(c, rng):
     h = make_header(rng, ver, rand_blocks(rng, rng.randrange(1, 3), [rng.randrange(0, 40)]))
     se = Session(c, rb(rng, 16 if ver != "D" else rng.choice((16, 24))), h)
     for _ in range(rng.randrange(3, 7)):
-        what = rng.choice(["str", "wrap", "version", "version", "setblock", "delblock", "alg"])
+        what = rng.choice(["str", "wrap", "version", "version", "setblock", "delblock", "alg", "load", "load", "unwrap"])
         cur = se.kb.header.version_id
-        if what == "version":
+        if what == "load":
+            # the object loads another header string (often with no optional blocks, or only a pad block) after having
+            # serialised its own: nothing of the earlier serialisation may survive
+            v2 = rng.choice([v for v in "ABCD" if len(se.kbpk) in VERS[v][1]])
+            nb = rng.choice([0, 0, 1, 2])
+            src = str(make_header(rng, v2, rand_blocks(rng, nb, [rng.randrange(0, 30)])))
+            if nb == 0 and rng.random() < 0.4:
+                bs2 = VERS[v2][0]
+                src = src[:12] + "01" + src[14:16] + "PB" + format(4 + bs2 - 4, "02X") + "0" * (bs2 - 4)
+                src = src[0] + str(len(src)).zfill(4) + src[5:]
+            se.load(src)
+        elif what == "unwrap":
+            v2 = rng.choice([v for v in "ABCD" if len(se.kbpk) in VERS[v][1]])
+            g = tr31.wrap(se.kbpk, make_header(rng, v2, rand_blocks(rng, rng.choice([0, 0, 1]), [rng.randrange(0, 20)])), rb(rng, 16))
+            se.unwrap(g)
+        elif what == "version":
             se.set(0, rng.choice([v for v in "ABCD" if len(se.kbpk) in VERS[v][1]]))
         elif what == "alg":
             se.set(2, rng.choice("TDA0"))
@@ -140,6 +155,74 @@ def generate(rng, tier, seed):
     for _ in range(60 if tier == "quick" else 400):
         c = Case("reused-header-sequence", {})
         reused_header(c, rng)
+        yield c
+    # serialise, then let the same object load / unwrap another header (none, one or only a pad block), serialise again
+    for ver in "ABCD":
+        for first in ("str", "wrap"):
+            for nb2 in (0, "pb", 1):
+                for via in ("load", "unwrap"):
+                    c = Case("dump-load-dump", {"ver": ver, "first": first, "second_blocks": nb2, "via": via})
+                    bs = VERS[ver][0]
+                    se = Session(c, rb(rng, 16), make_header(rng, ver, rand_blocks(rng, rng.randrange(1, 3), [rng.randrange(0, 20)])))
+                    se.str() if first == "str" else se.wrap(rb(rng, 16), None)
+                    v2 = rng.choice("ABCD")
+                    h2 = make_header(rng, v2, rand_blocks(rng, 1, [rng.randrange(0, 20)]) if nb2 == 1 else [])
+                    if via == "unwrap":
+                        se.unwrap(tr31.wrap(se.kbpk, h2, rb(rng, 16)))
+                    else:
+                        src = str(h2)
+                        if nb2 == "pb":
+                            b2 = VERS[v2][0]
+                            src = src[:12] + "01" + src[14:16] + "PB" + format(b2, "02X") + "0" * (b2 - 4)
+                            src = src[0] + str(len(src)).zfill(4) + src[5:]
+                        se.load(src)
+                    cur = se.kb.header.version_id
+                    r = se.str()
+                    if r.ok:
+                        g = tr31.Header()
+                        q = call_impl(g.load, (r.value,), stream="tr31")
+                        if not q.ok or q.value != len(r.value) or header_tuple(g) != header_tuple(se.kb.header):
+                            c.fail(f"str(header) after the object loaded another header does not re-load to an equal header: {r.value[:60]}")
+                    w = se.wrap(rb(rng, 16), None)
+                    if w.ok:
+                        m = framing(w.value, cur, se.kb.header)
+                        if m:
+                            c.fail(f"key block after the object loaded another header: {m}")
+                    yield c
+    # hostile characters offered to every text position of a header (fields, block ids, block data; first / middle / last
+    # character): whatever the setters let through must still come out of wrap / str as printable ASCII and well framed
+    hostile = ["\n", "\r", "\t", "\x00", "\x1f", "\x7f", "\x80", "\xe9", "\u0130", "\u0131", "\u017f", "\u212a", "\uff11", "\u0661", "\u00b2", "\ud800"]
+    for k in range(40 if tier == "quick" else 400):
+        c = Case("hostile-character", {})
+        ver = rng.choice("ABCD")
+        se = Session(c, rb(rng, 16), make_header(rng, ver, rand_blocks(rng, rng.randrange(0, 2), [5])))
+        for _ in range(3):
+            ch = hostile[(k + _) % len(hostile)] if rng.random() < 0.8 else rng.choice(hostile)
+            where = rng.choice(["field", "field", "blockid", "blockdata", "blockdata"])
+            if where == "field":
+                idx = rng.randrange(1, 6)
+                ln = len(getattr(se.kb.header, ["version_id", "key_usage", "algorithm", "mode_of_use", "version_num", "exportability"][idx]))
+                good = rs(rng, ln)
+                pos = rng.choice([0, ln - 1, ln])      # replace first / last character, or append
+                v = good[:pos] + ch + good[pos + 1:] if pos < ln else good + ch
+                se.set(idx, v)
+            elif where == "blockid":
+                good = rs(rng, 2).replace("P", "Q").replace("p", "q")
+                pos = rng.choice([0, 1, 2])
+                se.setblock(good[:pos] + ch + good[pos + 1:] if pos < 2 else good + ch, rs(rng, 4))
+            else:
+                good = rs(rng, rng.randrange(1, 12))
+                pos = rng.choice([0, len(good) // 2, len(good) - 1, len(good)])
+                se.setblock(rs(rng, 2).replace("P", "Q").replace("p", "q"), good[:pos] + ch + good[pos:])
+        cur = se.kb.header.version_id
+        r = se.str()
+        if r.ok and not all(32 <= ord(x) <= 126 for x in r.value):
+            c.fail(f"str(header) is not printable ASCII: {r.value[:60]!r}")
+        w = se.wrap(rb(rng, 16), None)
+        if w.ok:
+            m = framing(w.value, cur, se.kb.header)
+            if m:
+                c.fail(f"key block after hostile input was offered: {m}: {w.value[:60]!r}")
         yield c
     # serialise, switch the version (block size 8 <-> 16) with no other change, serialise again: every residue of the block length
     for total in range(0, 34):
